@@ -1225,6 +1225,14 @@ func (g *pg) assignStmt(n int) string {
 		case 1:
 			return fmt.Sprintf("%s%s += %s\n", in, v.name, k)
 		default:
+			// inside a loop a string is only ever extended by a literal: an expression
+			// that mentions the variable itself would double it on every iteration
+			// (the same goes for helper functions, which are called from loops, and for
+			// globals, which helper functions update)
+			if g.loopDep > 0 || g.inFunc != "" || g.lookup(v.name) == nil {
+				return fmt.Sprintf("%s%s = %s + %s\n", in, v.name, k, v.name)
+			}
+
 			return fmt.Sprintf("%s%s = %s\n", in, v.name, g.expr("string", 2))
 		}
 	}
